@@ -103,6 +103,24 @@ def run(run):
     run.cov["rule"] = ("22 input patterns (lists, operator chains, rows, statements, nesting, joins, arms, DDL columns, long literals / comments / blanks, and near-miss "
                        "inputs that fail at the last token) at sizes n, 2n, 4n, ...; plus random statements and malformed mutants; counters are wrapped around "
                        "FSMMachine.handle and every TokenScanner method from outside, the token list is a counting list subclass; wall time is not asserted")
+    if (dis or not proofs_ok) and not fails:
+        # search phase only (a proof or tie no longer checks): wall-clock ratios on scaled families, 3 of 3 repetitions
+        for name in ("blanks", "long literal and comment", "select items", "joins", "statements", "nesting"):
+            f = FAMILIES[name]
+            a, b = f(2000), f(16000)
+            if name == "nesting":
+                a, b = f(60), f(120)
+            rc, out = core.sh([core.PY, "-c", "import sys,time\nfrom metasequoia_sql import SQLParser\nr=[]\nfor t in (sys.argv[1], sys.argv[2]):\n    best=9e9\n    for _ in range(3):\n        t0=time.perf_counter()\n        try:\n            SQLParser.parse_statements(t)\n        except Exception:\n            pass\n        best=min(best,time.perf_counter()-t0)\n    r.append(best)\nprint(r[0], r[1])", a, b],
+                              env=core.impl_env(), timeout=600)
+            try:
+                ta, tb = [float(x) for x in out.strip().splitlines()[-1].split()]
+            except (ValueError, IndexError):
+                continue
+            grow = len(b) / len(a)
+            if tb > ta * grow * 2.5 + 0.05:
+                fails.append({"kind": "input", "stream": "timing (search phase)", "text": b[:300] + " ...", "family": name, "n": 16000, "request": "COUNT statements MYSQL " + stmt.cps(b[:50]),
+                              "oracle_verdict": "input pattern %r grown %.1fx costs %.1fx the time (%.3fs -> %.3fs, best of 3)" % (name, grow, tb / max(ta, 1e-9), ta, tb)})
+                break
     stmt.conclude(run, proofs_ok, dis, fails, "Props/C19.v", "step counters on the implementation (handle calls, cursor calls / reads / copies, direction)")
 
 
